@@ -8,14 +8,21 @@ def run(c):
               "sender pops with scripted write results (ok / error with k packets left), real batch timeouts, Stats, would-block reports, "
               "reconnect tokens, Close, on the real handler+Egress+tcpPool+pktBuffer with the harness playing the sender goroutine; "
               "layer 2: live sendLoop goroutines against loopback TCP sinks (idle tail after a partial batch, upstream unresolved then "
-              "resolved with both buffers full, connection resets, the real NewEgress). Non-trivial = the case contains a batch timeout "
+              "resolved with both buffers full, connection resets under traffic, the real NewEgress, an idle connection reset followed by a "
+              "multi-packet batch = write error on the first packet with exact loss accounting, a one-batch burst of large packets into an "
+              "upstream that reads m frames, stalls and resets = write error in the middle / towards the end of the batch with "
+              "duplicate, order and bounded-in-flight-loss checks); scenarios rotate with the trial index. Non-trivial = the case contains a batch timeout "
               "that has to release a partial batch / an idle tail after a partial batch, a failover, a both-buffers-full drop, a write "
               "error or an upstream reset; distinct by op-sequence hash")
     c.assumptions += [
         "one model step = one critical section of pktBuffer.mu; sync.Cond/sync.Mutex/time.AfterFunc/TCP are trusted (Go runtime, kernel)",
         "the number of goroutines in cond.Wait is read from sync.Cond's ticket counters (self-tested at harness start)",
         "real time: the batch timeout is 1 s; the oracle allows 10 s; a layer-1 case that stalls > 0.5 s between two ops is re-run",
-        "sendLoop (reconnect, deadlines, write-error handling) is exercised only end-to-end (layer 2), not step by step",
+        "sendLoop (reconnect, write-error handling, the write callback whose return value pop turns into ri = rm - n) is exercised only "
+        "end-to-end (layer 2): the callback is a closure inside sendLoop and the connection comes from net.Dialer, so it cannot be "
+        "driven step by step without copying it; its contract with pop is the Lean theorem callback_contract + the live scenarios 4/5",
+        "scenario 5 bounds TCP in-flight loss by /proc/sys/net/ipv4/tcp_wmem[2] + 512 KiB (sink receive buffer fixed at 4 KiB); "
+        "if that file is unreadable the bound is not evaluated",
         "packets already handed to the kernel when a connection dies are outside the property (TCP); "
         "the packet being written when a write fails is not resent by design ('not resend for last') and is counted in WriteErrors",
         "both senders have a resolved address (with a single upstream address the secondary never connects; not part of the quantifier)",
